@@ -701,7 +701,12 @@ impl Database {
                     let index_storage_arc =
                         file_manager.index_data_mut(schema_name, table_name, &index_name)?;
                     let mut index_storage = index_storage_arc.write();
-                    let index_btree = BTree::new(&mut *index_storage, root_page)?;
+                    // each index has its own root (not the table's)
+                    let index_root_page = {
+                        let page0 = index_storage.page(0)?;
+                        crate::storage::IndexFileHeader::from_bytes(page0)?.root_page()
+                    };
+                    let index_btree = BTree::new(&mut *index_storage, index_root_page)?;
                     let mut index_cursor = index_btree.cursor_first()?;
 
                     let mut index_keys_to_delete: Vec<Vec<u8>> = Vec::new();
@@ -710,7 +715,7 @@ impl Database {
                         index_cursor.advance()?;
                     }
 
-                    let mut index_btree_mut = BTree::new(&mut *index_storage, root_page)?;
+                    let mut index_btree_mut = BTree::new(&mut *index_storage, index_root_page)?;
                     for key in &index_keys_to_delete {
                         index_btree_mut.delete(key)?;
                     }
